@@ -97,6 +97,7 @@ class F:
     factory: Optional[str] = None  # source expr of default_factory
     alias: Optional[str] = None
     override: bool = True  # alias(override=False) when False
+    alias_annotated: bool = False  # the alias metadata is carried by Annotated[type, alias(...)] instead of field(metadata=...)
     required: bool = False  # `required` metadata
     flatten: bool = False
     props: Optional[str] = None  # None / "" (properties) / pattern string
